@@ -159,10 +159,10 @@ Definition reparse_c (c : N) : text := flat_map neutralise_char (enc_d c).
 Lemma neutralise_encode : forall t, neutralise (encode t) = flat_map reparse_c t.
 Proof. intro t. unfold neutralise. rewrite encode_map. apply flat_map_flat_map. Qed.
 
-(* characters for which the path is meant to work: XML Chars and the C0 controls; two exceptions, see the _refuted
-   witnesses: FORM FEED (not neutralised, not an XML Char) and NO-BREAK SPACE (written as an undefined entity) *)
+(* characters for which the path is meant to work: XML Chars and the C0 controls; one exception, see the _refuted
+   witness: NO-BREAK SPACE (written as an undefined entity).  (FORM FEED was a second one before the repair cc2b510.) *)
 Definition is_c0 (c : N) : bool := c <? 32.
-Definition reparse_ok (c : N) : bool := (xml_char c || is_c0 c) && negb (c =? 12) && negb (c =? 160).
+Definition reparse_ok (c : N) : bool := (xml_char c || is_c0 c) && negb (c =? 160).
 
 Lemma memN_spec : forall c l, memN c l = true <-> In c l.
 Proof.
@@ -173,11 +173,11 @@ Qed.
 
 (* the table facts the proofs need, checked by computation on the regenerated tables *)
 Lemma control_table_complete :
-  forallb (fun c => memN c re_control || (c =? 9) || (c =? 10) || (c =? 13) || (c =? 12))
+  forallb (fun c => memN c re_control || (c =? 9) || (c =? 10) || (c =? 13))
           (map N.of_nat (seq 0 32)) = true.
 Proof. vm_compute. reflexivity. Qed.
 
-Lemma control_table_sound : forallb (fun c => (c <? 32) && negb (xml_char c) && negb (c =? 12)) re_control = true.
+Lemma control_table_sound : forallb (fun c => (c <? 32) && negb (xml_char c)) re_control = true.
 Proof. vm_compute. reflexivity. Qed.
 
 (* every substitute: non-empty, made of XML Chars that are plain for the reader, and it is its own decoding *)
@@ -195,19 +195,18 @@ Proof.
   apply in_seq. lia.
 Qed.
 
-Lemma c0_in_table : forall c, c < 32 -> c <> 9 -> c <> 10 -> c <> 13 -> c <> 12 -> memN c re_control = true.
+Lemma c0_in_table : forall c, c < 32 -> c <> 9 -> c <> 10 -> c <> 13 -> memN c re_control = true.
 Proof.
-  intros c H H9 H10 H13 H12.
+  intros c H H9 H10 H13.
   pose proof control_table_complete as T. rewrite forallb_forall in T.
   specialize (T c (in_small_range c H)).
-  apply orb_true_iff in T. destruct T as [T|T]; [|apply N.eqb_eq in T; congruence].
   apply orb_true_iff in T. destruct T as [T|T]; [|apply N.eqb_eq in T; congruence].
   apply orb_true_iff in T. destruct T as [T|T]; [|apply N.eqb_eq in T; congruence].
   apply orb_true_iff in T. destruct T as [T|T]; [|apply N.eqb_eq in T; congruence].
   exact T.
 Qed.
 
-Lemma table_not_xml : forall c, memN c re_control = true -> c < 32 /\ xml_char c = false /\ c <> 12.
+Lemma table_not_xml : forall c, memN c re_control = true -> c < 32 /\ xml_char c = false.
 Proof.
   intros c H. apply memN_spec in H.
   pose proof control_table_sound as T. rewrite forallb_forall in T. specialize (T c H).
@@ -237,7 +236,7 @@ Lemma reparse_c_control : forall c, memN c re_control = true ->
   reparse_c c = neutralise_char c /\
   exists x tl, neutralise_char c = x :: tl /\ forallb plain_char (x :: tl) = true.
 Proof.
-  intros c H. destruct (table_not_xml c H) as [Hlt [Hx H12]].
+  intros c H. destruct (table_not_xml c H) as [Hlt Hx].
   assert (Es : enc_special c = false).
   { unfold enc_special. repeat (apply orb_false_iff; split); apply N.eqb_neq; lia. }
   unfold reparse_c. rewrite (enc_d_plain c Es). simpl. rewrite app_nil_r. split; [reflexivity|].
@@ -269,7 +268,7 @@ Proof.
   destruct (N.eq_dec c 9) as [->|N9]; [split; [reflexivity|lia]|].
   destruct (N.eq_dec c 10) as [->|N10]; [split; [reflexivity|lia]|].
   destruct (N.eq_dec c 13) as [->|N13]; [split; [reflexivity|lia]|].
-  rewrite (c0_in_table c H N9 N10 N13 H1) in Hm. discriminate.
+  rewrite (c0_in_table c H N9 N10 N13) in Hm. discriminate.
 Qed.
 
 Lemma reparse_head : forall c, reparse_ok c = true -> exists x tl, reparse_c c = x :: tl /\ (x =? 60) = false.
@@ -473,8 +472,10 @@ Proof.
 Qed.
 
 (* the two characters on which the path fails *)
-Lemma html2stan_formfeed : html2stan (encode [12]) = H2ParseError.
-Proof. vm_compute. reflexivity. Qed.
+(* before the repair cc2b510 the FORM FEED was not neutralised and the parser refused it; now it is shown as \x0c *)
+Lemma html2stan_formfeed_old : html2stan_old (encode [12]) = H2ParseError /\
+  html2stan (encode [12]) = H2Ok (STag [] [] [SText [92; 120; 48; 99]]).
+Proof. split; vm_compute; reflexivity. Qed.
 Lemma html2stan_nbsp : html2stan (encode [160]) = H2ParseError.
 Proof. vm_compute. reflexivity. Qed.
 
